@@ -13,6 +13,7 @@ from sa.q import cond_atoms, strip_sv, sv_field_path, atomic_op, noepoch, sv_men
 PROTECT = re.compile(r"::(Guard|GuardArray)::protect$")
 ASSIGN = re.compile(r"::(Guard|GuardArray)::(assign|copy)$")
 PTR_LOAD_OPS = ("load", "exchange")
+PROJ = re.compile(r"(marked_ptr::(ptr|all|operator->|operator\*)|node_traits::to_(value|node)_ptr|::to_(value|node)_ptr|get_node_traits::to_(value|node)_ptr)$")
 
 
 def is_ptr_type(t):
@@ -26,16 +27,49 @@ def analyse_path(F, p):
     origin = {}       # value -> (load event, location)
     published = {}    # value -> index of assign
     issues = []
+    alias = {}        # value obtained from another by a pure projection (marked_ptr::ptr(), operator->, to_value_ptr ...) -> that value
+
+    def resolve(v):
+        k = 0
+        while v in alias and k < 8:
+            v = alias[v]
+            k += 1
+        return v
+
+    def base_of(sv):
+        b = strip_sv(sv)
+        return resolve(b)
+
+    def norm_loc(sv):
+        """location identity: projections (p.ptr(), p->, to_value_ptr) are replaced by the value they project, epochs dropped"""
+        if isinstance(sv, tuple):
+            if sv in alias:
+                return norm_loc(resolve(sv))
+            return tuple(norm_loc(x) for x in noepoch(sv)) if sv and sv[0] in ("fld", "elem", "deref", "addr") else sv
+        return sv
     # branch facts in event order
     for i, e in enumerate(ev):
         if e.kind == "call":
             q = e.q or ""
+            if PROJ.search(q):
+                src = e.obj if e.obj is not None else (e.args[0] if e.args else None)
+                if src is not None:
+                    alias[e.val] = strip_sv(src) if strip_sv(src) != src and False else src
+                    if isinstance(src, tuple) and src and src[0] == "deref":
+                        alias[e.val] = src[1]
             if PROTECT.search(q):
+                # protect( [idx,] atomic& toGuard, f ): toGuard is a field of some node - that node must already be safe to touch
+                for a in e.args:
+                    if isinstance(a, tuple) and a and a[0] == "fld":
+                        b = base_of(a)
+                        if b in origin and b not in protected:
+                            issues.append((e, b, origin[b][0]))
                 protected.add(e.val)
                 continue
             if ASSIGN.search(q) and e.args:
                 v = e.args[-1]
                 published[v] = i
+                published[resolve(v)] = i
                 # assign( p.ptr() ): the published value is the pointer part of a marked pointer
                 for x in ev[:i]:
                     if x.kind == "call" and x.val == v and x.q and re.search(r"marked_ptr::(ptr|all)$", x.q) and x.obj is not None:
@@ -43,14 +77,14 @@ def analyse_path(F, p):
                 continue
             op = atomic_op(e)
             if op in PTR_LOAD_OPS and e.node is not None and is_ptr_type(e.node.get("t")):
-                origin[e.val] = (e, noepoch(e.obj))
+                origin[e.val] = (e, norm_loc(e.obj))
             # dereference through an unprotected value
-            base = strip_sv(e.obj) if e.obj is not None else None
+            base = base_of(e.obj) if e.obj is not None else None
             if base is not None and base != e.obj and base in origin and base not in protected:
                 if op is not None or q.endswith("::lock") or q.endswith("::unlock"):
                     issues.append((e, base, origin[base][0]))
         elif e.kind == "store":
-            base = strip_sv(e.obj) if e.obj is not None else None
+            base = base_of(e.obj) if e.obj is not None else None
             if base is not None and base != e.obj and base in origin and base not in protected:
                 issues.append((e, base, origin[base][0]))
         elif e.kind == "branch":
@@ -60,7 +94,7 @@ def analyse_path(F, p):
                 atom, pol = norm_cond(e.val)
                 tv = (e.extra[1] == pol)
             if isinstance(atom, tuple) and len(atom) == 4 and atom[0] == "op" and atom[1] == "==" and tv:
-                a, b = atom[2], atom[3]
+                a, b = resolve(atom[2]), resolve(atom[3])
                 for x, y in ((a, b), (b, a)):
                     if y in protected:
                         protected.add(x)
@@ -85,10 +119,13 @@ def rule_guard_discipline(ctx, rid, funcs, reason, bound=4000, exempt=None):
         if not any(e.get("k") == "call" and Q.atomic_op(e) in PTR_LOAD_OPS for _, _, e in F.all_elements()):
             continue
         try:
-            ps = PathSim(F, bound=bound).run()
+            ps = PathSim(F, bound=bound, entry_values=True).run()
         except PathBoundExceeded:
-            skipped += 1
-            continue
+            try:
+                ps = PathSim(F, bound=bound).run()
+            except PathBoundExceeded:
+                skipped += 1
+                continue
         analysed += 1
         ctx.paths += len(ps)
         seen = set()
